@@ -66,10 +66,21 @@ func (e *Engine) strOf(st *State, arr, off, n T) T {
 	}
 	r = e.name("str", r)
 	e.assume(st, Eq(e.slen(r), n), "string(bytes) length")
-	e.nsym++
-	v := fmt.Sprintf("k!%d", e.nsym)
-	k := T{v, SInt}
-	e.assume(st, Forall([]string{v}, Implies(And(Le(I(0), k), Lt(k, n)), Eq(e.sbyte(r, k), Sel(arr, Add(off, k))))), "string(bytes) content")
+	if nv, ok := constInt(n); ok && nv <= 128 {
+		// constant length: ground content facts (keeps key reasoning quantifier-free)
+		arrN := e.name("sarr", arr)
+		var fs []T
+		for i := int64(0); i < nv; i++ {
+			fs = append(fs, Eq(e.sbyte(r, I(i)), Sel(arrN, Add(off, I(i)))))
+		}
+		e.assume(st, And(fs...), "string(bytes) content")
+		e.strLens[r.s] = nv
+	} else {
+		e.nsym++
+		v := fmt.Sprintf("k!%d", e.nsym)
+		k := T{v, SInt}
+		e.assume(st, Forall([]string{v}, Implies(And(Le(I(0), k), Lt(k, n)), Eq(e.sbyte(r, k), Sel(arr, Add(off, k))))), "string(bytes) content")
+	}
 	e.strTerms = append(e.strTerms, strTerm{r, arr, off, n})
 	e.strIDs = append(e.strIDs, r)
 	return r
@@ -437,10 +448,20 @@ func (e *Engine) noteInlined(name string) {
 
 // joinReturns merges the return states of an inlined body back into st.
 func (e *Engine) joinReturns(st *State, cx *Ctx, nres int, call ast.Node) Value {
+	deadResult := func() Value {
+		st.pc = tFalse
+		var vals TupleV
+		for _, r := range cx.results {
+			vals = append(vals, e.zero(st, r.Type()))
+		}
+		if len(vals) == 1 {
+			return vals[0]
+		}
+		return vals
+	}
 	if len(cx.returns) == 0 {
 		// callee never returns normally
-		st.pc = tFalse
-		return TupleV{}
+		return deadResult()
 	}
 	// run defers on each return state
 	for _, r := range cx.returns {
@@ -466,8 +487,7 @@ func (e *Engine) joinReturns(st *State, cx *Ctx, nres int, call ast.Node) Value 
 	}
 	m := e.merge(states)
 	if m == nil {
-		st.pc = tFalse
-		return TupleV{}
+		return deadResult()
 	}
 	var vals TupleV
 	for i := 0; i < nres; i++ {
@@ -531,6 +551,11 @@ func (e *Engine) havocCall(st *State, name string, sig *types.Signature, call *a
 	} else {
 		e.noteAssumption("external call treated as side-effect free with arbitrary result: " + name)
 	}
+	if !impure {
+		na := e.fresh("alloc_call", SInt)
+		e.assume(st, Ge(na, st.alloc), "allocation pointer is monotone")
+		st.alloc = na
+	}
 	var vals TupleV
 	for i := 0; i < sig.Results().Len(); i++ {
 		vals = append(vals, e.symbolic(st, "r_"+sanitize(shortName(name)), sig.Results().At(i).Type()))
@@ -586,9 +611,6 @@ func (e *Engine) evalConversion(st *State, call *ast.CallExpr, to types.Type) Va
 		}
 	case *types.Slice:
 		if sv, ok := v.(StrV); ok {
-			if e.specMode > 0 {
-				e.fail(call, "[]byte(string) in a contract expression")
-			}
 			blk := e.allocBlock(st, 1)
 			st.Mem = e.name("Mem", Sto(st.Mem, blk, e.sarr(sv.t)))
 			n := e.name("n", e.slen(sv.t))
@@ -815,11 +837,14 @@ func (e *Engine) paramObjects(fc *FuncContract) []*types.Var {
 
 func (e *Engine) evalClauseValue(st *State, cl *Clause) Value {
 	savePkg := e.pkg
+	saveHoist := e.hoisted
+	e.hoisted = nil
 	e.pkg = &pkgCtx{info: cl.info, pkg: savePkg.pkg}
 	e.specMode++
 	defer func() {
 		e.specMode--
 		e.pkg = savePkg
+		e.hoisted = saveHoist
 	}()
 	return e.eval(st, cl.expr)
 }
@@ -842,6 +867,9 @@ func (e *Engine) callContract(st *State, fc *FuncContract, args []Value, call *a
 		env[p] = args[i]
 	}
 	e.funcsUsed[fc.key] = true
+	if e.quant > 0 {
+		e.fail(call, "call of %s inside a quantifier body", fc.key)
+	}
 	if fc.trusted || fc.ext {
 		e.noteAssumption("assumed contract (not verified here): " + fc.key)
 	}
@@ -866,6 +894,12 @@ func (e *Engine) callContract(st *State, fc *FuncContract, args []Value, call *a
 				e.havocTarget(st, v, m.info.TypeOf(m.expr), m)
 			}
 		}
+	}
+	// the callee may allocate: the allocation pointer moves forward by an unknown amount
+	{
+		na := e.fresh("alloc_call", SInt)
+		e.assume(st, Ge(na, st.alloc), "allocation pointer is monotone")
+		st.alloc = na
 	}
 	var vals TupleV
 	for _, rt := range e.resultTypes(fc) {
@@ -974,6 +1008,10 @@ func (e *Engine) evalSpecHelper(st *State, call *ast.CallExpr, name string) Valu
 			vn := fmt.Sprintf("%s!q%d", sanitize(p.Name()), e.nsym)
 			names = append(names, vn)
 			vt := T{vn, SInt}
+			if e.quantVars == nil {
+				e.quantVars = map[types.Object]bool{}
+			}
+			e.quantVars[p] = true
 			switch u := under(p.Type()).(type) {
 			case *types.Basic:
 				if u.Info()&types.IsString != 0 {
@@ -996,6 +1034,7 @@ func (e *Engine) evalSpecHelper(st *State, call *ast.CallExpr, name string) Valu
 		if !ok || len(ret.Results) != 1 {
 			e.fail(call, "quantifier body must be a single return")
 		}
+		e.hoistCalls(st, ret.Results[0], env)
 		e.envStack = append(e.envStack, env)
 		e.quant++
 		body := e.asBool(e.eval(st, ret.Results[0]), ret.Results[0])
@@ -1026,13 +1065,10 @@ func (e *Engine) evalSpecHelper(st *State, call *ast.CallExpr, name string) Valu
 		}
 		return BoolV{And(Eq(a.blk, b.blk), Eq(a.off, b.off), Eq(a.ln, b.ln))}
 	case "be16", "be32", "be64", "le16", "le32", "le64":
-		sv, ok := e.eval(st, call.Args[0]).(SliceV)
-		if !ok {
-			e.fail(call, "%s needs a byte slice", name)
-		}
+		bo := e.bytesOperand(st, call.Args[0])
 		off := e.asInt(e.eval(st, call.Args[1]), call.Args[1])
 		n := map[string]int{"16": 2, "32": 4, "64": 8}[name[2:]]
-		return IntV{byteSum(Sel(st.Mem, sv.blk), Add(sv.off, off), n, name[0] == 'b')}
+		return IntV{byteSum(bo.arr, Add(bo.off, off), n, name[0] == 'b')}
 	case "mathint":
 		return IntV{e.asInt(e.eval(st, call.Args[0]), call)}
 	case "mathdiv":
@@ -1205,4 +1241,100 @@ func byteSum(arr, off T, n int, bigEndian bool) T {
 		sum = Add(sum, Mul(Sel(arr, Add(off, I(int64(i)))), IBig(pow2(shift))))
 	}
 	return sum
+}
+
+// hoistCalls evaluates, outside the quantifier, calls (and string conversions of slices) in a quantifier body
+// that do not mention the bound variables; their values are reused inside the body.
+func (e *Engine) hoistCalls(st *State, body ast.Expr, bound map[types.Object]Value) {
+	if e.hoisted == nil {
+		e.hoisted = map[ast.Expr]Value{}
+	}
+	mentionsBound := func(x ast.Node) bool {
+		found := false
+		ast.Inspect(x, func(n ast.Node) bool {
+			if id, ok := n.(*ast.Ident); ok {
+				if o := e.pkg.info.Uses[id]; o != nil {
+					if _, isB := bound[o]; isB {
+						found = true
+					}
+					for i := len(e.envStack) - 1; i >= 0 && e.quant > 0; i-- {
+						// variables bound by enclosing quantifiers
+						if _, ok := e.envStack[i][o]; ok && e.isQuantVar(o) {
+							found = true
+						}
+					}
+				}
+			}
+			return !found
+		})
+		return found
+	}
+	var walk func(x ast.Node, inOld bool)
+	walk = func(x ast.Node, inOld bool) {
+		ast.Inspect(x, func(n ast.Node) bool {
+			call, ok := n.(*ast.CallExpr)
+			if !ok {
+				return true
+			}
+			if _, ok := n.(*ast.FuncLit); ok {
+				return false
+			}
+			if id, ok := call.Fun.(*ast.Ident); ok {
+				if f, ok := e.pkg.info.Uses[id].(*types.Func); ok && f.Pkg() == nil {
+					switch id.Name {
+					case "old":
+						if e.oldState != nil {
+							// hoist inside old() against the old state
+							ast.Inspect(call.Args[0], func(m ast.Node) bool {
+								if c2, ok := m.(*ast.CallExpr); ok && e.hoistable(c2) && !mentionsBound(c2) {
+									if _, done := e.hoisted[c2]; !done {
+										e.hoisted[c2] = e.eval(e.oldState, c2)
+									}
+									return false
+								}
+								return true
+							})
+							return false
+						}
+						return true
+					case "forall", "exists":
+						return false // nested quantifiers hoist on their own
+					}
+					if e.hoistable(call) && !mentionsBound(call) {
+						if _, done := e.hoisted[call]; !done {
+							e.hoisted[call] = e.eval(st, call)
+						}
+						return false
+					}
+					return true
+				}
+			}
+			if e.hoistable(call) && !mentionsBound(call) {
+				if _, done := e.hoisted[call]; !done {
+					e.hoisted[call] = e.eval(st, call)
+				}
+				return false
+			}
+			return true
+		})
+	}
+	walk(body, false)
+}
+
+func (e *Engine) isQuantVar(o types.Object) bool { return e.quantVars[o] }
+
+// hoistable: calls of program functions (with contract / inlinable) and strOf.
+func (e *Engine) hoistable(call *ast.CallExpr) bool {
+	if tv, ok := e.pkg.info.Types[call.Fun]; ok && tv.IsType() {
+		return false
+	}
+	if id, ok := call.Fun.(*ast.Ident); ok {
+		if f, ok := e.pkg.info.Uses[id].(*types.Func); ok && f.Pkg() == nil {
+			return id.Name == "strOf"
+		}
+		if _, ok := e.pkg.info.Uses[id].(*types.Builtin); ok {
+			return false
+		}
+	}
+	return e.calleeFunc(call) != nil
 }
